@@ -47,6 +47,7 @@ def cfgOfRec (r : Rec) : Cfg Float :=
     countAdd := r.int "cadd", status := r.nat "status", canDispel := r.bool "dispel",
     onAdd := parseScript (r.str "OnAdd"), onRemove := parseScript (r.str "OnRemove"), onDispel := parseScript (r.str "OnDispel"),
     onExtDur := parseScript (r.str "OnExtendDuration"), onExtCnt := parseScript (r.str "OnExtendCount"),
+    flags := (r.ints "flags").map Int.toNat,
     onPropChange := parseScript (r.str "OnPropertyChange"), onPhase1 := parseScript (r.str "OnPhase1"),
     onPhase2 := parseScript (r.str "OnPhase2") }
 
@@ -55,7 +56,8 @@ def opOfRec (r : Rec) : Option (Op Float) :=
   match r.name with
   | "addmod" => some (.add t { name := r.nat "name", source := r.int "src", dur := r.int "dur", count := r.int "count",
                                maxCount := r.int "max", countAdd := r.int "cadd", tickImm := r.bool "imm",
-                               stats := parseStats (r.str "stats"), weak := parseWeak (r.str "weak") })
+                               stats := parseStats (r.str "stats"), weak := parseWeak (r.str "weak"),
+                               chance := if r.has "chance" then [r.flt "chance"] else [] })
   | "rm" => some (.remove t (r.nat "name"))
   | "rmsrc" => some (.removeFromSource t (r.int "src") (r.nat "name"))
   | "rmself" => some (.removeSelf t (r.nat "uid"))
@@ -89,6 +91,9 @@ def evRec : Ev Float → Rec
   | .hook k t u => (Rec.mk' "hook").addS "kind" k |>.addI "t" t |>.addI "uid" u
   | .err k => (Rec.mk' "err").addS "kind" k
   | .ret ok => (Rec.mk' "ret").addB "ok" ok
+  | .resisted t src name c b ehr eres dres => (Rec.mk' "Resisted").addI "t" t |>.addI "src" src |>.addI "name" name
+      |>.addF "chance" c |>.addF "base" b |>.addF "ehr" ehr |>.addF "eres" eres |>.addF "dres" dres
+  | .applied c => (Rec.mk' "applied").addF "chance" c
 
 /-- base stats the harness registers for unit `t` -/
 def baseOf (t : Int) : List (Nat × Float) :=
@@ -142,7 +147,11 @@ def stepRec (d : DSt) (r : Rec) : DSt × List Rec × List String :=
   match opOfRec r with
   | none => (d, [Rec.mk' "badop"], [])
   | some op =>
-    let s0 : St Float := { d.st with trace := [] }
+    -- the resist roll's inputs: the scripted generator of this operation and the units' hit rate / resistances
+    -- as the harness registers them (base stats; no harness modifier changes them)
+    let dresOf : Int → List (Nat × Float) := fun t => if t == 2 then [(100, 0.5), (103, 0.25)] else []
+    let s0 : St Float := { d.st with trace := [], draws := r.flts "draws",
+                                     ehr := [(1, 0.2 + 0.1)], eres := [(2, 0.2 + 0.1)], dres := dresOf }
     match exec d.cat 60 s0 op with
     | none => (d, [Rec.mk' "nofuel"], [])
     | some s' =>
